@@ -11,6 +11,8 @@
 #include "../cnl_assert.h"
 #include "../numbers/signedness.h"
 
+#include <algorithm>
+#include <array>
 #include <limits>
 #include <numbers>
 
@@ -24,11 +26,32 @@ namespace cnl::_impl {
     template<typename Scalar>
     requires integer<Scalar>
     struct to_chars_capacity<Scalar> {
-        [[nodiscard]] constexpr auto operator()(int /*base*/ = 10) const
+        [[nodiscard]] constexpr auto operator()(int base = 10) const
         {
+            constexpr auto digits = std::numeric_limits<Scalar>::digits;
             auto const sign_chars = static_cast<int>(cnl::numbers::signedness_v<Scalar>);
-            auto const integer_chars = static_cast<int>(std::numeric_limits<Scalar>::digits * std::numbers::ln2 / std::numbers::ln10) + 1;
-            return sign_chars + integer_chars;
+            auto const integer_chars = static_cast<int>(digits * std::numbers::ln2 / std::numbers::ln10) + 1;
+            if (base >= 10) {
+                // never needs more characters than decimal
+                return sign_chars + integer_chars;
+            }
+
+            // number of digits of 2^digits (the magnitude of the most negative number) in `base`,
+            // by repeated doubling of a little-endian digit string
+            std::array<int, digits + 2> power{1};
+            auto num_power_digits = 1;
+            for (auto bit = 0; bit != digits; ++bit) {
+                auto carry = 0;
+                for (auto i = 0; i != num_power_digits; ++i) {
+                    auto const doubled = power[i] * 2 + carry;
+                    power[i] = doubled % base;
+                    carry = doubled / base;
+                }
+                if (carry) {
+                    power[num_power_digits++] = carry;
+                }
+            }
+            return sign_chars + std::max(integer_chars, num_power_digits);
         }
     };
 }
